@@ -167,16 +167,21 @@ Loop(PT, T, s, gs, cs, gi, ci, env) ==
                  IF ~a.ok THEN Fail(a.env) ELSE Loop(PT, T, s, gs, cs, g2, ci + 1, a.env)   \* Continue
         ELSE LookAhead(PT, T, s, gs, cs, g2, ci, env, mv, k, <<>>)
 
-\* the look-ahead loop: the first candidate that the next goal matches ends the ellipsis.
-\* The env keeps whatever failed attempts wrote into it.
+\* the look-ahead loop: the first candidate that the next goal matches ends the ellipsis.  Since fix d602613 every
+\* candidate is tried on a copy of the environment: what a candidate that does not fit binds is gone, and the one
+\* that fits is matched again by the caller.  An environment carrying keep = TRUE reproduces the earlier behaviour -
+\* one mutable environment threaded through the failed attempts too (MatchKeeping below; C04: `f($$$, g($A, 1), $A)`
+\* did not match `f(g(x, 2), g(y, 1), y)` because the attempt on g(x, 2) left A = x behind).
+Keeps(env) == "keep" \in DOMAIN env /\ env.keep
 LookAhead(PT, T, s, gs, cs, gi, ci, env, mv, skipped, matched) ==
-    LET m == MatchNode(PT, T, s, gs[gi], cs[ci], env) IN
+    LET m == MatchNode(PT, T, s, gs[gi], cs[ci], env)
+        after == IF Keeps(env) THEN m.env ELSE env IN
     IF m.r = "both" THEN
-        LET a == AggEllipsis(T, m.env, mv, matched, skipped) IN
+        LET a == AggEllipsis(T, after, mv, matched, skipped) IN
         IF ~a.ok THEN Fail(a.env)
         ELSE SkipTrivial(PT, T, s, gs, cs, gi, ci, a.env)                \* ControlFlow::Fallthrough
-    ELSE IF ci + 1 > Len(cs) THEN Fail(m.env)
-    ELSE LookAhead(PT, T, s, gs, cs, gi, ci + 1, m.env, mv, skipped, Append(matched, cs[ci]))
+    ELSE IF ci + 1 > Len(cs) THEN Fail(after)
+    ELSE LookAhead(PT, T, s, gs, cs, gi, ci + 1, after, mv, skipped, Append(matched, cs[ci]))
 
 \* match_single_node_while_skip_trivial; precondition gi <= Len(gs)
 SkipTrivial(PT, T, s, gs, cs, gi, ci, env) ==
@@ -214,4 +219,8 @@ LoopTail(PT, T, s, gs, cs, gi, ci, env) ==
 Match(PT, T, s, c) ==
     LET m == MatchNode(PT, T, s, 1, c, EmptyEnv) IN
     IF m.r = "both" THEN [ok |-> TRUE, env |-> m.env] ELSE [ok |-> FALSE, env |-> EmptyEnv]
+\* the matcher with one environment threaded through failed look-ahead attempts (the behaviour before fix d602613)
+MatchKeeping(PT, T, s, c) ==
+    LET m == MatchNode(PT, T, s, 1, c, [single |-> <<>>, multi |-> <<>>, keep |-> TRUE]) IN
+    IF m.r = "both" THEN [ok |-> TRUE, env |-> [single |-> m.env.single, multi |-> m.env.multi]] ELSE [ok |-> FALSE, env |-> EmptyEnv]
 =============================================================================
